@@ -68,7 +68,7 @@ theorem objective_model_exact (h2 : (2 : K) ≠ 0) {A : Matrix μ ν K} {b : μ 
   rw [← hex, gauss_newton_exact h2, hex, hF s.kopt]
   rfl
 
-/-- **ratio_eq_one** — `calculate_ratio` (controller.py:735-756, no regulariser):
+/-- **ratio_eq_one** — `calculate_ratio` (controller.py:736-757, no regulariser):
     `actual_reduction = objopt − sumsq(r(xopt+d))`, `pred_reduction = −model_value(g, H, d)`;
     for affine residuals and an interpolation set in general position their quotient is 1. -/
 theorem ratio_eq_one (h2 : (2 : K) ≠ 0) {A : Matrix μ ν K} {b : μ → K} (s : IModel K ι ν μ)
